@@ -45,8 +45,8 @@ def _gen_case_a(seed: int, tier: str, index: int) -> Dict[str, Any]:
     n = rng.randint(15, 60) if tier == "quick" else rng.randint(40, 250)
     plan = []
     for _ in range(n):
-        k = rng.choices(["statp", "statp_item", "same", "aba", "refresh", "watch2", "unwatch", "rewatch", "spa_unwatch_all", "one_byte", "reentrant", "creep"],
-                        [4, 6, 2, 2, 2, 1, 1, 1, 0.5, 2, 1.5, 2.5])[0]
+        k = rng.choices(["statp", "statp_item", "same", "aba", "refresh", "watch2", "unwatch", "rewatch", "spa_unwatch_all", "one_byte", "reentrant", "creep", "a_refresh_a"],
+                        [4, 6, 2, 2, 2, 1, 1, 1, 0.5, 2, 1.5, 2.5, 1.2])[0]
         plan.append({"op": k, "a": rng.getrandbits(30), "b": rng.getrandbits(30), "n": rng.choice([1, 1, 2, 3, 6]), "gap": rng.choice([0.0, 0.05, 0.4, 1.5])})
         if k == "reentrant":
             plan[-1]["action"] = rng.choice(["unwatch_all", "unwatch_self", "unwatch_next", "swap_next"])
@@ -149,6 +149,38 @@ async def scenario(world: WorldA) -> None:
                 await asyncio.sleep(0.02)
                 emit([(pos, a0)])
                 res.probe("a_b_a")
+            elif k == "a_refresh_a":
+                # the spa reports A; moves on to B without the report getting through; the client learns B from a refresh; the spa returns to A
+                # and reports it with a message byte-identical to the first one: the item changes B -> A and must say so
+                a = accs[op["a"] % len(accs)]
+                pos = max(0, min(1022, a.pos))
+                protocol = spa._protocol
+                if protocol is not None and res.faultfree:
+                    if refreshes:
+                        await asyncio.wait(refreshes, timeout=400)
+                    cur = blk[pos:pos + 2]
+                    word_a = bytes([cur[0] ^ (1 << (op["b"] % 8)), cur[1] ^ 0x01])
+                    word_b = bytes([word_a[0] ^ (1 << ((op["b"] >> 3) % 8)), word_a[1] ^ 0x02])
+                    emit([(pos, word_a)])
+                    await asyncio.sleep(0.5)
+                    mark = len(world.net.history)
+                    model.structure.replace_status_block_segment(pos, word_b)          # unreported
+                    start = max(0, pos - op["b"] % 40)
+                    ok = await spa.struct.get(protocol, lambda: GeckoStatusBlockProtocolHandler.request(
+                        protocol.get_and_increment_sequence_counter(False), start, min(1024 - start, 60), parms=spa.sendparms))
+                    n_req = sum(1 for r in world.net.history[mark:] if r.verb == "STATU" and r.src[0] != sysm.peer.ip)
+                    saw_b = spa.struct.status_block[pos:pos + 2] == word_b
+                    emit([(pos, word_a)])
+                    await asyncio.sleep(1.0)
+                    n_req2 = sum(1 for r in world.net.history[mark:] if r.verb == "STATU" and r.src[0] != sysm.peer.ip)
+                    if ok and saw_b and n_req == 1:
+                        res.probe("same_message_again_after_a_refresh")
+                        got = spa.struct.status_block[pos:pos + 2]
+                        # (a library refresh requested in the last second carries A as well: the spa holds A since the second report)
+                        if got != word_a and man.facade is not None and man.facade.spa is spa:
+                            world.violate(PROP, "update-not-applied", f"op#{i}: the spa reported {word_a!r} at {pos}, a refresh then installed {word_b!r}, the spa "
+                                          f"reported {word_a!r} again (same message as the first report); one second later the client still reads {got!r}: "
+                                          f"the items of these bytes changed without their observers being told ({n_req2} requests since)")
             elif k == "refresh":
                 start = op["a"] % 1000
                 length = 1 + op["b"] % min(200, 1024 - start) if op["b"] % 3 else min(1024 - start, 200 + op["b"] % 600)
@@ -246,7 +278,7 @@ ASSUMPTIONS = [
     "for temperature items 'changed' means the stored word changed; the passed values are only required to differ",
     "coverage of update geometries is measured (probe table), not asserted",
 ]
-PROBES = ["temperature_creeps_by_a_raw_unit", "temperature_unit_flipped", "refresh_judged_as_one_update", "observer_blocked_in_callback", "unwatch_from_client_thread", "unwatch_all_from_client_thread", "registration_changed_during_an_update", "several_observers_on_one_item", "reentrant_unwatch_all", "reentrant_unwatch_self", "reentrant_unwatch_next", "reentrant_swap_next", "update_aimed_at_item", "straddling_update_notified", "silent_although_bytes_changed", "duplicate_update", "a_b_a", "watched_twice", "unwatched", "unwatch_all"]
+PROBES = ["same_message_again_after_a_refresh", "temperature_creeps_by_a_raw_unit", "temperature_unit_flipped", "refresh_judged_as_one_update", "observer_blocked_in_callback", "unwatch_from_client_thread", "unwatch_all_from_client_thread", "registration_changed_during_an_update", "several_observers_on_one_item", "reentrant_unwatch_all", "reentrant_unwatch_self", "reentrant_unwatch_next", "reentrant_swap_next", "update_aimed_at_item", "straddling_update_notified", "silent_although_bytes_changed", "duplicate_update", "a_b_a", "watched_twice", "unwatched", "unwatch_all"]
 N_QUICK = 1020
 
 
